@@ -381,7 +381,7 @@ handle_boolean(spif_int32_t n, spif_charptr_t val_ptr, unsigned char islong)
         } else if (BOOL_OPT_ISFALSE(val_ptr)) {
             if (SHOULD_PARSE(n)) {
                 D_OPTIONS(("\"%s\" == FALSE\n", val_ptr));
-                *((unsigned long *) SPIFOPT_OPT_VALUE(n)) &= ~SPIFOPT_OPT_MASK(n);
+                *((unsigned long *) SPIFOPT_OPT_VALUE(n)) &= ~((unsigned long) SPIFOPT_OPT_MASK(n));
             }
         } else {
             if (SHOULD_PARSE(n)) {
